@@ -36,6 +36,9 @@ func (n *Node) NodeClass(ctx context.Context) (ua.NodeClass, error) {
 	if err != nil {
 		return 0, err
 	}
+	if v == nil {
+		return 0, ua.StatusBadTypeMismatch
+	}
 	return ua.NodeClass(v.Int()), nil
 }
 
@@ -45,7 +48,7 @@ func (n *Node) BrowseName(ctx context.Context) (*ua.QualifiedName, error) {
 	if err != nil {
 		return nil, err
 	}
-	return v.Value().(*ua.QualifiedName), nil
+	return attributeValue[*ua.QualifiedName](v)
 }
 
 // Description returns the description of the node.
@@ -54,7 +57,7 @@ func (n *Node) Description(ctx context.Context) (*ua.LocalizedText, error) {
 	if err != nil {
 		return nil, err
 	}
-	return v.Value().(*ua.LocalizedText), nil
+	return attributeValue[*ua.LocalizedText](v)
 }
 
 // DisplayName returns the display name of the node.
@@ -63,7 +66,7 @@ func (n *Node) DisplayName(ctx context.Context) (*ua.LocalizedText, error) {
 	if err != nil {
 		return nil, err
 	}
-	return v.Value().(*ua.LocalizedText), nil
+	return attributeValue[*ua.LocalizedText](v)
 }
 
 // AccessLevel returns the access level of the node.
@@ -74,7 +77,8 @@ func (n *Node) AccessLevel(ctx context.Context) (ua.AccessLevelType, error) {
 	if err != nil {
 		return 0, err
 	}
-	return ua.AccessLevelType(v.Value().(uint8)), nil
+	x, err := attributeValue[uint8](v)
+	return ua.AccessLevelType(x), err
 }
 
 // HasAccessLevel returns true if all bits from mask are
@@ -93,7 +97,8 @@ func (n *Node) UserAccessLevel(ctx context.Context) (ua.AccessLevelType, error) 
 	if err != nil {
 		return 0, err
 	}
-	return ua.AccessLevelType(v.Value().(uint8)), nil
+	x, err := attributeValue[uint8](v)
+	return ua.AccessLevelType(x), err
 }
 
 // HasUserAccessLevel returns true if all bits from mask are
@@ -104,6 +109,20 @@ func (n *Node) HasUserAccessLevel(ctx context.Context, mask ua.AccessLevelType) 
 		return false, err
 	}
 	return (v & mask) == mask, nil
+}
+
+// attributeValue returns the value of an attribute as a T. It returns
+// StatusBadTypeMismatch if the server sent no value or one of another type.
+func attributeValue[T any](v *ua.Variant) (T, error) {
+	var zero T
+	if v == nil {
+		return zero, ua.StatusBadTypeMismatch
+	}
+	x, ok := v.Value().(T)
+	if !ok {
+		return zero, ua.StatusBadTypeMismatch
+	}
+	return x, nil
 }
 
 // Value returns the value of the node.
